@@ -279,6 +279,8 @@ func testC04(t *testing.T, kind sim.Kind) {
 	checkProp(t, "C04", col, func(c *caseCtx) {
 		cfg := drawL0Config(c.rt, kind)
 		cfg.Tagged = true
+		cfg.Nested = false
+		cfg.WideFirst, cfg.SoloRun = false, 0
 		cfg.Conflict = rapid.Bool().Draw(c.rt, "conflictbias")
 		cfg.ArrayOnly = kind == sim.Document
 		cfg.MaxReplicas = 4
